@@ -145,6 +145,9 @@ impl<'a> Ctx<'a> {
     pub fn inconclusive(&mut self, s: String) {
         self.stats.inconclusive.push(s);
     }
+    pub fn is_known(&self, key: &str) -> bool {
+        self.shared.known.iter().any(|k| k.property == self.id && k.key == key && k.status == "known")
+    }
     /// report a violation; returns true if it is a *known finding* (the run continues)
     pub fn violation(&mut self, v: Violation) -> bool {
         if let Some(k) = self
